@@ -2,8 +2,10 @@ package main
 
 import (
 	"fmt"
+	"io"
 	"math/rand"
 	"net"
+	"net/http"
 	"os"
 	"path/filepath"
 	"regexp"
@@ -101,6 +103,9 @@ func streamC09(env *runEnv) {
 			b.pace = 2 * time.Millisecond
 			backends = append(backends, b)
 		}
+		// half of the clients of a round come from one browser-like client that returns its session cookie
+		// on every request (both channels of its legacy tunnels, all its tunnels at once)
+		shared := visitCookie(srv.inst)
 		for i := 0; i < n; i++ {
 			wg.Add(1)
 			scenario := r.Intn(6)
@@ -132,7 +137,16 @@ func streamC09(env *runEnv) {
 				case 3: // stop during setup
 					pk = pk[:2]
 				}
-				res := runTunnel(srv.inst, tunnelScript{transport: transport, id: fmt.Sprintf("{c09-%d-%d-%d}", env.seed, round, i), packets: pk, end: end})
+				ck := ""
+				if i%2 == 1 {
+					ck = shared
+				}
+				id := fmt.Sprintf("{c09-%d-%d-%d}", env.seed, round, i)
+				if transport == "ws" && i%8 >= 6 {
+					// two websocket clients of a round present one connection id (it only matters for legacy pairing)
+					id = fmt.Sprintf("{c09-%d-%d-dup}", env.seed, round)
+				}
+				res := runTunnel(srv.inst, tunnelScript{transport: transport, id: id, packets: pk, end: end, cookieHdr: ck})
 				mu.Lock()
 				tunnels++
 				frames += len(res.responses)
@@ -209,4 +223,77 @@ func raceSignatures(dir string) []string {
 	}
 	sort.Strings(out)
 	return out
+}
+
+func init() { streams["c09gw"] = streamC09gw }
+
+// streamC09gw: the assembled binary under connection churn: many short-lived connections (accepted,
+// served, closed) from 16 clients at once, next to tunnels being hijacked and torn down. Whatever
+// main() hangs on the http.Server (connection-state hooks, loggers, counters) is exercised here; the
+// process must survive and its log must be free of runtime faults.
+func streamC09gw(env *runEnv) {
+	if rdpgwBinary == "" {
+		return
+	}
+	idp := newFakeIdP()
+	defer idp.close()
+	dir := filepath.Join(env.workdir, "c09gw")
+	mkdirAll(dir)
+	gc := gwConfig{authSet: true, auth: []string{"openid"}, tlsDisable: true, hosts: []string{"127.0.0.1:3389"}, hostSelection: "any",
+		providerURL: idp.srv.URL, clientID: idp.clientID}
+	yaml, ev := gc.render("file")
+	g, ok := startGateway(dir, yaml, ev, false)
+	if !ok {
+		panic("C09 gw: gateway did not start: " + g.logs())
+	}
+	per := 300
+	if env.thorough() {
+		per = 3000
+	}
+	var wg sync.WaitGroup
+	served := make([]int, 16)
+	for w := 0; w < 16; w++ {
+		wg.Add(1)
+		go func(w int) {
+			defer wg.Done()
+			tr := &http.Transport{DisableKeepAlives: true}
+			cl := &http.Client{Transport: tr, Timeout: 3 * time.Second, CheckRedirect: func(*http.Request, []*http.Request) error { return http.ErrUseLastResponse }}
+			for k := 0; k < per; k++ {
+				path := []string{"/metrics", "/tokeninfo", "/connect", "/remoteDesktopGateway/"}[(w+k)%4]
+				if resp, err := cl.Get(g.base() + path); err == nil {
+					io.Copy(io.Discard, resp.Body)
+					resp.Body.Close()
+					served[w]++
+				}
+				if k%25 == 0 {
+					if c, err := openTunnel(g, tunnelScript{transport: []string{"ws", "legacy"}[k/25%2], id: fmt.Sprintf("{c09gw-%d-%d-%d}", env.seed, w, k)}); err == nil {
+						c.send(packet(ptHandshake, handshakeBody(1, 0, 0, 2)))
+						c.recv(time.Second)
+						c.close()
+					}
+				}
+			}
+		}(w)
+	}
+	wg.Wait()
+	total := 0
+	for _, n := range served {
+		total += n
+	}
+	obs := "no-fault"
+	lg := g.logs()
+	switch {
+	case !g.alive():
+		obs = "process-exited"
+	case strings.Contains(lg, "fatal error:") || strings.Contains(lg, "concurrent map"):
+		obs = "concurrent-fault-in-server-log"
+	case total < 16*per*9/10:
+		obs = fmt.Sprintf("only-%d-of-%d-requests-served", total, 16*per)
+	}
+	if m := regexp.MustCompile(`fatal error: ([a-z][a-z ]*[a-z])`).FindStringSubmatch(lg); m != nil {
+		obs = "process-aborted-" + strings.ReplaceAll(m[1], " ", "-")
+	}
+	env.count("c09gw." + obs)
+	env.emit("raceprobe", "binary-under-connection-churn", fmt.Sprintf("requests=%d", 16*per), obs)
+	g.stop()
 }
